@@ -1430,4 +1430,167 @@ theorem run_radius (s : State) (ops : List Op) : (run s ops).radius = s.radius :
   | nil => rfl
   | cons op rest ih => simp only [List.foldl_cons]; rw [ih, step_radius]
 
+/-! ### the stale-index list is untouched by every operation of `Op` (it stays `[]` in their histories) -/
+
+theorem cache_stale (s : State) (m : Nat) (cid : Option Nat) : (cache s m cid).stale = s.stale := by
+  unfold cache; cases cid <;> rfl
+
+theorem dropStale_stale (s : State) (m : Nat) (old new : Option Nat) : (dropStale s m old new).stale = s.stale := by
+  unfold dropStale
+  cases old with
+  | none => rfl
+  | some oc => simp only; split <;> rfl
+
+theorem finish_stale (s : State) (m : Nat) (l : Lease) (d : Bool) : (finish s m l d).stale = s.stale := rfl
+
+theorem expireOne_stale (t : Nat) (s : State) (a : Nat) : (expireOne t s a).stale = s.stale := by
+  rw [expireOne_eq]
+  cases lookup s.leases a with
+  | none => rfl
+  | some l => simp only; split <;> rfl
+
+theorem applyList_stale (t : Nat) (macs : List Nat) (s : State) : (applyList t s macs).stale = s.stale := by
+  unfold applyList
+  induction macs generalizing s with
+  | nil => rfl
+  | cons a rest ih => simp only [List.foldl_cons]; rw [ih, expireOne_stale]
+
+theorem term_stale (t : Term) (s : State) : (t.run s).stale = s.stale := by
+  cases t with
+  | rel m =>
+    show (release s m).stale = s.stale
+    rw [release_eq]; cases lookup s.leases m <;> rfl
+  | dec m ip =>
+    show (decline s m ip).stale = s.stale
+    rw [decline_eq]
+    cases lookup s.leases m with
+    | none => rfl
+    | some l => simp only; split <;> rfl
+  | cleanup o => exact applyList_stale _ _ _
+
+theorem step_stale (s : State) (op : Op) : (step s op).1.stale = s.stale := by
+  cases op with
+  | disc m =>
+    simp only [step, discover]
+    cases lookup s.leases m with
+    | none =>
+      simp only
+      cases hq : s.pool.allocate m with
+      | mk p o => cases o <;> rfl
+    | some l =>
+      simp only
+      split
+      · rfl
+      · cases hq : s.pool.allocate m with
+        | mk p o => cases o <;> rfl
+  | req m ip cid =>
+    simp only [step, request]
+    cases lookup s.leases m with
+    | none =>
+      simp only [establish]
+      split
+      · rfl
+      · cases hq : s.pool.reserve m ip with
+        | mk p ok =>
+          cases ok
+          · rfl
+          · simp only [cache_stale]
+    | some l =>
+      simp only [renew]
+      split
+      · rfl
+      · simp only [cache_stale, dropStale_stale]
+  | term t => exact term_stale t s
+  | tick n => rfl
+  | gap o inner =>
+    simp only [step, gap]
+    split
+    · rfl
+    · simp only [applyList_stale, term_stale]
+  | split a b =>
+    simp only [step]
+    cases a with
+    | rel m =>
+      simp only [split, takeRelease]
+      cases lookup s.leases m with
+      | none => exact term_stale b s
+      | some l => simp only [releaseTail_eq, finish_stale, term_stale]
+    | dec m ip =>
+      simp only [split, takeDecline]
+      cases lookup s.leases m with
+      | none => exact term_stale b s
+      | some l =>
+        by_cases e : l.ip = ip
+        · simp only [e, if_true, declineTail_eq, finish_stale, term_stale]
+        · simp only [e, if_false]; exact term_stale b s
+    | cleanup o => simp only [split, term_stale]; exact applyList_stale _ _ _
+  | shutdown => rfl
+
+
+theorem fixStale_nil {s : State} (h : s.stale = []) : fixStale s = s := by
+  cases s
+  simp only at h
+  subst h
+  rfl
+
+/-- while no index entry is stale, the operations of the real server are the operations of the theorems -/
+theorem stepX_of_nil {s : State} (h : s.stale = []) :
+    (∀ o : Op, (stepX s (.op o)).1 = (step s o).1) ∧ (∀ m cid, (stepX s (.disc m cid)).1 = (step s (.disc m)).1) := by
+  have hh : ∀ m cid, staleHit s m cid = none := by
+    intro m cid
+    unfold staleHit
+    cases lookup s.leases m <;> cases cid <;> simp [h]
+  constructor
+  · intro o
+    cases o with
+    | req m r cid =>
+      simp only [stepX, hh, step]
+      exact fixStale_nil ((step_stale s (.req m r cid)).trans h)
+    | disc m => simp only [stepX]; exact fixStale_nil ((step_stale s (.disc m)).trans h)
+    | term t => simp only [stepX]; exact fixStale_nil ((step_stale s (.term t)).trans h)
+    | tick n => simp only [stepX]; exact fixStale_nil ((step_stale s (.tick n)).trans h)
+    | gap o i => simp only [stepX]; exact fixStale_nil ((step_stale s (.gap o i)).trans h)
+    | split a b => simp only [stepX]; exact fixStale_nil ((step_stale s (.split a b)).trans h)
+    | shutdown => simp only [stepX]; exact fixStale_nil ((step_stale s .shutdown).trans h)
+  · intro m cid
+    simp only [stepX, hh, step]
+
+/-! ### handleRequest split at its unlock point is handleRequest -/
+
+/-- `requestBegin` followed at once by `requestFinish` is `request` (in every reachable state): the split used by
+    `estGap` is the same handler, cut where it drops the lease lock -/
+theorem request_split {s : State} (hI : Inv [] s) (mac r : Nat) (cid : Option Nat) :
+    match requestBegin s mac r cid with
+    | (s1, some p) => request s mac r cid = (requestFinish s1 mac p, .ack r)
+    | (s1, none) => request s mac r cid = (s, .nak) ∧ s1 = s := by
+  unfold requestBegin request
+  cases hl : lookup s.leases mac with
+  | some l =>
+    simp only [renew]
+    by_cases e : l.ip = r
+    · simp only [e, ne_eq, not_true_eq_false, if_false]
+      rfl
+    · simp only [ne_eq, e, not_false_eq_true, if_true, and_self]
+  | none =>
+    simp only [establish]
+    by_cases hc : (!s.cfg.contains r) = true
+    · simp only [hc, if_true, and_self]
+    · simp only [hc, Bool.false_eq_true, if_false]
+      cases hq : s.pool.reserve mac r with
+      | mk p ok =>
+        cases ok with
+        | false => simp only [and_self]
+        | true =>
+          simp only
+          have hfresh : s.radius = true → lookup s.acct s.nextSess = none := by
+            intro _
+            cases hx : lookup s.acct s.nextSess with
+            | none => rfl
+            | some rr => exact absurd (hI.acctRec _ _ hx).1 (Nat.lt_irrefl _)
+          unfold requestFinish
+          simp only
+          cases hr : s.radius with
+          | false => cases cid <;> simp [cache]
+          | true => cases cid <;> simp [cache, hfresh hr]
+
 end Bng.DhcpTerm
